@@ -209,7 +209,7 @@ let run_pie_case (idx : int) (toks : string list) (fuel : nat) (with_dump : bool
      | "F" -> let k = num t in
        let rs = List.init k (fun _ -> n_of_int (num t)) in
        let (_, w') = dsl_run_step !tb fuel !w (HEnv rs) in w := w'
-     | "S" | "Z" ->   (* "Z": the implementation harness keeps using the Session after an abort; the model stops there *)
+     | ("S" | "Z") as kind ->   (* "Z": the caller catches the panic of an aborted build and keeps using the Session (Build.run_zsession) *)
        let k = num t in
        (* "e r v": an external change of a resource while the session is alive (Build.run_msession) *)
        let mops = List.init k (fun _ -> match next t with
@@ -221,7 +221,8 @@ let run_pie_case (idx : int) (toks : string list) (fuel : nat) (with_dump : bool
        let sops = List.filter_map (function MSop o -> Some o | MEdit _ -> None) mops in
        Printf.printf "S %d\n" !step;
        let (rs, w') =
-         if has_edit then dsl_run_msession !tb fuel (new_session !w) mops
+         if kind = "Z" then dsl_run_zsession !tb fuel (new_session !w) mops
+         else if has_edit then dsl_run_msession !tb fuel (new_session !w) mops
          else dsl_run_step !tb fuel !w (HSession sops) in
        w := w';
        (* results are printed per operation, an edit prints "o e -> done" like the harness (as long as the session goes on) *)
@@ -240,7 +241,7 @@ let run_pie_case (idx : int) (toks : string list) (fuel : nat) (with_dump : bool
                 (match r with
                  | RDone (Some o) -> Printf.printf "%s -> %s\n" pre (pz o)
                  | RDone None -> Printf.printf "%s -> done\n" pre
-                 | RAbort k -> Printf.printf "%s -> abort %s\n" pre (akind_text k); stop := true
+                 | RAbort k -> Printf.printf "%s -> abort %s\n" pre (akind_text k); if kind <> "Z" then stop := true
                  | RFuel -> Printf.printf "%s -> FUEL\n" pre; stop := true))) mops;
        Printf.printf "e %s\n" (join " " (List.rev_map pz !w.errs));
        Printf.printf "v %s\n" (join ";" (List.rev_map event_text !w.trace));
